@@ -287,6 +287,52 @@ func runCase(c *Case) (*verdict, map[string]int) {
 			}
 			return
 		}
+		if c.Env == "unsub-backlog" && i == 0 {
+			// connection 0 subscribes to the witness stream, lets a full window of
+			// deliveries go unacknowledged while more are parked in its queue,
+			// unsubscribes, and only then acknowledges: the parked messages have
+			// no subscription any more when the broker takes them off the queue
+			p.AutoAck = false
+			for _, f := range frames {
+				if !p.C.SendRaw(f) {
+					break
+				}
+			}
+			pubs := func() (l []*packet.Publish) {
+				for _, g := range p.Inbox {
+					if x, ok := g.(*packet.Publish); ok && x.Message.QOS > 0 {
+						l = append(l, x)
+					}
+				}
+				return
+			}
+			deadline := time.Now().Add(ev.Ceiling())
+			for len(pubs()) < 10 && !p.EOF && time.Now().Before(deadline) {
+				p.PumpWait(time.Millisecond)
+			}
+			// a few more are published meanwhile and wait in the queue
+			time.Sleep(20 * time.Millisecond)
+			from := len(p.Inbox)
+			_ = p.Send(&packet.Unsubscribe{ID: 77, Topics: []string{"w/priv"}})
+			if p.WaitFor(from, func(g packet.Generic) bool { _, ok := g.(*packet.Unsuback); return ok }, ev.Ceiling()) < 0 {
+				results[i].v = failf(b, "hostile/closed-without-cause", "connection 0 subscribed, received %d deliveries and unsubscribed: no UNSUBACK (eof=%v)", len(pubs()), p.EOF)
+				return
+			}
+			for _, x := range pubs() {
+				_ = p.Send(&packet.Puback{ID: x.ID})
+			}
+			p.AutoAck = true
+			if !p.Ping() {
+				results[i].v = failf(b, "hostile/closed-without-cause", "connection 0 only subscribed, unsubscribed and acknowledged what it had received, yet the broker closed it (eof=%v err=%v)", p.EOF, p.EOFErr)
+				return
+			}
+			results[i].rejects = 1
+			p.Drop()
+			if !b.WaitClosed(bconn) {
+				results[i].v = failf(b, "liveness/client-not-terminated", "broker side of connection 0 did not terminate after the peer closed")
+			}
+			return
+		}
 		if c.Env == "stalled-publisher" && i == 0 {
 			// connection 0 subscribes to the witness stream, never acknowledges
 			// and keeps publishing: once its queue is full the witness publisher
@@ -369,7 +415,9 @@ func runCase(c *Case) (*verdict, map[string]int) {
 		if results[i].v != nil {
 			return results[i].v, stats
 		}
-		if results[i].rejects > 0 && c.Env == "stalled-publisher" {
+		if results[i].rejects > 0 && c.Env == "unsub-backlog" {
+			stats["unsubscribed-with-parked-messages"]++
+		} else if results[i].rejects > 0 && c.Env == "stalled-publisher" {
 			stats["stalled-publisher-disconnected-by-token-timeout"]++
 		} else if results[i].rejects > 0 {
 			stats["publisher-waited-for-slow-subscriber"]++
@@ -620,14 +668,23 @@ func genCase(rt *rapid.T) *Case {
 		c.Env = "slow-subscriber"
 		c.ReadLimit = 0
 	case 7:
-		if rapid.IntRange(0, 2).Draw(rt, "stalled") == 0 {
+		switch rapid.IntRange(0, 3).Draw(rt, "stalled") {
+		case 0:
 			c.Env = "stalled-publisher"
+			c.ReadLimit = 0
+		case 1, 2:
+			c.Env = "unsub-backlog"
 			c.ReadLimit = 0
 		}
 	}
 	n := rapid.IntRange(1, 5).Draw(rt, "conns")
 	for i := 0; i < n; i++ {
 		c.Conns = append(c.Conns, genConn(rt, ids))
+	}
+	if c.Env == "unsub-backlog" {
+		cp := refcodec.Encode(&refcodec.Packet{Type: refcodec.CONNECT, ProtoName: "MQTT", Level: 4, ClientID: "backlog", Clean: rapid.Bool().Draw(rt, "backlog_clean")})
+		sp := refcodec.Encode(&refcodec.Packet{Type: refcodec.SUBSCRIBE, ID: 1, Filters: []string{"w/priv"}, QoSs: []byte{1}})
+		c.Conns[0] = HConn{Frames: []string{hex.EncodeToString(cp), hex.EncodeToString(sp)}, Desc: []string{describe(cp), describe(sp) + " then lets a window of deliveries go unacknowledged, unsubscribes, acknowledges"}}
 	}
 	if c.Env == "slow-subscriber" || c.Env == "stalled-publisher" {
 		cp := refcodec.Encode(&refcodec.Packet{Type: refcodec.CONNECT, ProtoName: "MQTT", Level: 4, ClientID: "slow", Clean: rapid.Bool().Draw(rt, "slow_clean")})
@@ -655,7 +712,7 @@ func nontrivial(c *Case) bool {
 
 func TestC14(t *testing.T) {
 	run := ev.Start("C14", "exploration")
-	run.Rule("hostile scenarios: 1-5 hostile connections (sequential or concurrent, optionally sharing client ids) each sending up to 15 frames: packets a client may send with hostile field values (wildcard / NUL-bearing / empty / 65535-byte topics and filters, arbitrary ids), packets that are out of protocol for a client, mutated and truncated encodings, garbage and oversized length declarations, optionally with a small engine read limit; environments: none, KillTimeout=1ns (takeover fails in Setup), a subscriber (queue 4, window 2) that never acknowledges the witness stream and leaves once a publisher is stuck behind it, such a subscriber that also keeps publishing and never leaves (only the broker's token timeout, 3 s in all C14 environments, can end that stall), MemoryBackend.Close racing with the connections, the n-th call of one backend hook failing. Meanwhile a witness publisher streams numbered QoS 1 messages to a witness subscribed to '#' and one subscribed to a private topic. Oracle: the process survives; a connection that sent a protocol-breaking frame is closed; a connection that sent only admissible packets still answers PINGREQ; both witnesses receive every numbered message exactly once in order and stay connected; Terminate is called exactly once per successful Setup; Closed() fires for every connection; no library goroutine remains. non-trivial = some frame must be rejected, a boundary-sized field, or a hostile environment; distinct by case")
+	run.Rule("hostile scenarios: 1-5 hostile connections (sequential or concurrent, optionally sharing client ids) each sending up to 15 frames: packets a client may send with hostile field values (wildcard / NUL-bearing / empty / 65535-byte topics and filters, arbitrary ids), packets that are out of protocol for a client, mutated and truncated encodings, garbage and oversized length declarations, optionally with a small engine read limit; environments: none, KillTimeout=1ns (takeover fails in Setup), a subscriber (queue 4, window 2) that never acknowledges the witness stream and leaves once a publisher is stuck behind it, such a subscriber that also keeps publishing and never leaves (only the broker's token timeout, 3 s in all C14 environments, can end that stall), a subscriber that lets a full window go unacknowledged with more parked in its queue, unsubscribes and only then acknowledges, MemoryBackend.Close racing with the connections, the n-th call of one backend hook failing. Meanwhile a witness publisher streams numbered QoS 1 messages to a witness subscribed to '#' and one subscribed to a private topic. Oracle: the process survives; a connection that sent a protocol-breaking frame is closed; a connection that sent only admissible packets still answers PINGREQ; both witnesses receive every numbered message exactly once in order and stay connected; Terminate is called exactly once per successful Setup; Closed() fires for every connection; no library goroutine remains. non-trivial = some frame must be rejected, a boundary-sized field, or a hostile environment; distinct by case")
 	run.Assume("hostile peers' inbound data is drained (a subscriber that stops reading stalls the memory backend by documented design)", "at most 9 unreleased QoS 2 publishes and 60 publishes per hostile connection (flow control and the own-queue limit are documented behaviour)")
 	defer run.Finish(t)
 
